@@ -4,13 +4,17 @@ import (
 	"fmt"
 	"math"
 	"math/big"
+	"sort"
 	"strings"
 
 	"github.com/ipld/go-ipld-prime/datamodel"
 	"github.com/ipld/go-ipld-prime/node/basicnode"
 	"github.com/ucan-wg/go-ucan/pkg/args"
+	"github.com/ucan-wg/go-ucan/pkg/command"
 	"github.com/ucan-wg/go-ucan/pkg/meta"
 	"github.com/ucan-wg/go-ucan/pkg/policy/literal"
+	"github.com/ucan-wg/go-ucan/token/delegation"
+	"github.com/ucan-wg/go-ucan/token/invocation"
 )
 
 // numeric boundary values of every Go integer type, as (Go value, exact mathematical value)
@@ -144,6 +148,167 @@ func literalCheck(idx int) (out string) {
 	if err := m.Add("k", c.v); err == nil {
 		v, _ := m.GetNode("k")
 		chk("meta.Add", v, nil)
+	}
+	if len(problems) > 0 {
+		return strings.Join(problems, "; ")
+	}
+	return "ok"
+}
+
+func literalFloat(f float64) datamodel.Node { return basicnode.NewFloat(f) }
+
+// intsWithin reports whether every integer in the node lies within ±(2^53−1).
+func intsWithin(n datamodel.Node) bool {
+	switch n.Kind() {
+	case datamodel.Kind_Int:
+		if _, ok := n.(datamodel.UintNode); ok {
+			if u, err := n.(datamodel.UintNode).AsUint(); err != nil || u > 1<<53-1 {
+				return false
+			}
+			return true
+		}
+		v, err := n.AsInt()
+		return err == nil && v <= 1<<53-1 && v >= -(1<<53-1)
+	case datamodel.Kind_List:
+		it := n.ListIterator()
+		for !it.Done() {
+			_, v, err := it.Next()
+			if err != nil || !intsWithin(v) {
+				return false
+			}
+		}
+	case datamodel.Kind_Map:
+		it := n.MapIterator()
+		for !it.Done() {
+			_, v, err := it.Next()
+			if err != nil || !intsWithin(v) {
+				return false
+			}
+		}
+	}
+	return true
+}
+
+// literalNodes: ready-made IPLD nodes holding an out-of-range integer, supplied directly, nested in IPLD
+// containers and nested in Go containers, through every way a caller has of putting a value into a token's
+// arguments. Accepted ⇒ every integer kept is within ±(2^53−1); a token built from them never carries one.
+func literalNodes() (out string) {
+	defer func() {
+		if r := recover(); r != nil {
+			out = fmt.Sprint("panic: ", r)
+		}
+	}()
+	var problems []string
+	bad := []datamodel.Node{basicnode.NewInt(1 << 53), basicnode.NewInt(-(1 << 53)), basicnode.NewInt(math.MaxInt64), basicnode.NewInt(math.MinInt64),
+		basicnode.NewInt(math.MinInt64 + 1), basicnode.NewUint(1 << 63), basicnode.NewUint(math.MaxUint64)}
+	k := keyFor("ed25519", 0)
+	for bi, b := range bad {
+		wrapList := func() datamodel.Node {
+			nb := basicnode.Prototype.List.NewBuilder()
+			la, _ := nb.BeginList(2)
+			la.AssembleValue().AssignInt(1)
+			la.AssembleValue().AssignNode(b)
+			la.Finish()
+			return nb.Build()
+		}()
+		wrapMap := func() datamodel.Node {
+			nb := basicnode.Prototype.Map.NewBuilder()
+			ma, _ := nb.BeginMap(1)
+			ma.AssembleKey().AssignString("m")
+			ma.AssembleValue().AssignNode(wrapList)
+			ma.Finish()
+			return nb.Build()
+		}()
+		values := map[string]any{
+			"node":             b,
+			"ipld-list":        wrapList,
+			"ipld-map":         wrapMap,
+			"go-slice":         []any{int64(1), b},
+			"go-slice-of-node": []datamodel.Node{b},
+			"go-map":           map[string]any{"m": wrapMap},
+			"go-map-of-slice":  map[string]any{"k": []any{"x", wrapList}},
+		}
+		for name, v := range values {
+			where := fmt.Sprintf("%s#%d", name, bi)
+			a := args.New()
+			if err := a.Add("k", v); err == nil {
+				if n, err := a.GetNode("k"); err == nil && !intsWithin(n) {
+					problems = append(problems, "args.Add("+where+") kept an integer beyond ±(2^53-1)")
+				}
+			}
+			if n, err := literal.Any(v); err == nil {
+				a2 := args.New()
+				if err := a2.Add("k", n); err == nil {
+					if got, err := a2.GetNode("k"); err == nil && !intsWithin(got) {
+						problems = append(problems, "args.Add(literal.Any("+where+")) kept an integer beyond ±(2^53-1)")
+					}
+				}
+			}
+			tk, err := invocation.New(k.did, k.did, command.MustParse("/x"), nil, invocation.WithArgument("k", v))
+			if err == nil {
+				if n, err := tk.Arguments().GetNode("k"); err == nil && !intsWithin(n) {
+					problems = append(problems, "invocation.New(WithArgument("+where+")) returned a token carrying an integer beyond ±(2^53-1)")
+				}
+				if sealed, _, err := tk.ToSealed(k.priv); err == nil {
+					if _, _, err := invocation.FromSealed(sealed); err != nil {
+						problems = append(problems, "invocation with argument "+where+" seals but does not unseal: "+err.Error())
+					}
+				}
+			}
+		}
+	}
+	sort.Strings(problems)
+	if len(problems) > 0 {
+		if len(problems) > 4 {
+			problems = append(problems[:4], fmt.Sprintf("… %d more", len(problems)-4))
+		}
+		return strings.Join(problems, "; ")
+	}
+	return "ok"
+}
+
+// cmdHistory: strings the command grammar refuses stay refused after the same text has been ASSEMBLED with
+// command.New / Join (which do not validate), by the parser, by both token constructors and by the decoders.
+func cmdHistory() (out string) {
+	defer func() {
+		if r := recover(); r != nil {
+			out = fmt.Sprint("panic: ", r)
+		}
+	}()
+	var problems []string
+	k := keyFor("ed25519", 0)
+	type tc struct {
+		text string
+		make func() command.Command
+	}
+	cases := []tc{
+		{"/Crud/Read", func() command.Command { return command.New("Crud", "Read") }},
+		{"/crud/read/", func() command.Command { return command.MustParse("/crud").Join("read/") }},
+		{"/ADMIN", func() command.Command { return command.Top().Join("ADMIN") }},
+		{"/hist/Ärger", func() command.Command { return command.New("hist", "Ärger") }},
+		{"/hist/x/", func() command.Command { return command.New("hist", "x/") }},
+	}
+	for _, c := range cases {
+		if _, err := command.Parse(c.text); err == nil {
+			problems = append(problems, "Parse accepts "+c.text+" before anything else happened")
+			continue
+		}
+		made := c.make()
+		if string(made) != c.text {
+			continue // the assembling functions produced something else: nothing to compare
+		}
+		if _, err := command.Parse(c.text); err == nil {
+			problems = append(problems, "Parse accepts "+c.text+" after New/Join assembled it")
+		}
+		if command.IsValid(c.text) {
+			problems = append(problems, "IsValid accepts "+c.text+" after New/Join assembled it")
+		}
+		if _, err := delegation.Root(k.did, k.did, made, nil); err == nil {
+			problems = append(problems, "delegation.Root accepts the command "+c.text)
+		}
+		if _, err := invocation.New(k.did, k.did, made, nil); err == nil {
+			problems = append(problems, "invocation.New accepts the command "+c.text)
+		}
 	}
 	if len(problems) > 0 {
 		return strings.Join(problems, "; ")
